@@ -5,7 +5,8 @@
 (* Values are the serde data model, as records tagged by `t':                  *)
 (*   null, bool(b), num(a) - a is the decimal text of a number atom -,          *)
 (*   str(s), char(s) - s a sequence of character tokens -, bytes(n) - n ints -, *)
-(*   none, some(v), unit, newtype(v), seq(items), tuple(items),                 *)
+(*   none, some(v), unit, unitstruct, newtype(v), seq(items), tuple(items),     *)
+(*   tuplestruct(items),                                                        *)
 (*   map(entries: <<key, value>>), struct(fields: <<name, value>>),             *)
 (*   unitvar(name), newtypevar(name, v), tuplevar(name, items),                 *)
 (*   structvar(name, fields).                                                   *)
@@ -69,6 +70,7 @@ Wrap(nm, body) == "{" \o Name(nm) \o ":" \o body \o "}"
 Encode(v) ==
     CASE v.t = "null" -> "null"
       [] v.t = "unit" -> "null"
+      [] v.t = "unitstruct" -> "null"
       [] v.t = "none" -> "null"
       [] v.t = "bool" -> IF v.b THEN "true" ELSE "false"
       [] v.t = "num" -> v.a
@@ -79,6 +81,7 @@ Encode(v) ==
       [] v.t = "newtype" -> Encode(v.v)
       [] v.t = "seq" -> "[" \o Items(v.items, TRUE) \o "]"
       [] v.t = "tuple" -> "[" \o Items(v.items, TRUE) \o "]"
+      [] v.t = "tuplestruct" -> "[" \o Items(v.items, TRUE) \o "]"
       [] v.t = "map" -> "{" \o Members(v.entries, TRUE) \o "}"
       [] v.t = "struct" -> "{" \o Fields(v.fields, TRUE) \o "}"
       [] v.t = "unitvar" -> Name(v.name)
@@ -101,7 +104,7 @@ KeyClass(k) ==
     CASE k.t \in {"str", "char", "unitvar"} -> "must"
       [] k.t = "num" -> IF k.int THEN "must" ELSE "may"       \* floats: either refused or as the reference
       [] k.t = "newtype" -> KeyClass(k.v)
-      [] k.t \in {"bool", "some", "none", "unit", "null"} -> "may"
+      [] k.t \in {"bool", "some", "none", "unit", "unitstruct", "null"} -> "may"
       [] OTHER -> "never"                                      \* sequences, maps, structs, bytes, data variants
 EncodeKey(k) ==
     CASE k.t \in {"str", "char"} -> Quoted(k.s)
@@ -115,7 +118,7 @@ EncodeKey(k) ==
 RECURSIVE HasKey(_, _), AnyItem(_, _), AnyEntry(_, _), AnyField(_, _)
 HasKey(v, c) ==
     CASE v.t \in {"some", "newtype", "newtypevar"} -> HasKey(v.v, c)
-      [] v.t \in {"seq", "tuple", "tuplevar"} -> AnyItem(v.items, c)
+      [] v.t \in {"seq", "tuple", "tuplestruct", "tuplevar"} -> AnyItem(v.items, c)
       [] v.t = "map" -> AnyEntry(v.entries, c)
       [] v.t \in {"struct", "structvar"} -> AnyField(v.fields, c)
       [] OTHER -> FALSE
